@@ -586,4 +586,109 @@ theorem ClusterMove.refl (fr : SkOp → Bool) {b : Config} (h : ShapeOk b) : Clu
   simp only [mask, xorB_self]
   exact propagate_false _ _ h
 
+/-! ### what `linkClosed` says leg by leg: propagation reads the links -/
+
+theorem lookup_mem {β : Type} : ∀ (l : List (Nat × β)) (k : Nat) (x : β), l.lookup k = some x → (k, x) ∈ l
+  | [], _, _, h => by simp at h
+  | (k', y) :: t, k, x, h => by
+    simp only [List.lookup_cons] at h
+    split at h
+    · rename_i he
+      have : k = k' := by simpa using he
+      simp only [Option.some.injEq] at h
+      simp [this, h]
+    · exact List.mem_cons_of_mem _ (lookup_mem t k x h)
+
+theorem writeVars_getElem?_not_mem (v : Nat) : ∀ (vars : List Nat) (vals st : List Bool), v ∉ vars →
+    (writeVars st vars vals)[v]? = st[v]?
+  | [], _, _, _ => by simp [writeVars]
+  | w :: ws, [], _, _ => by simp [writeVars]
+  | w :: ws, x :: xs, st, h => by
+    have hw : w ≠ v := fun e => h (by simp [e])
+    have := writeVars_getElem?_not_mem v ws xs (st.set w x) (fun hm => h (by simp [hm]))
+    simp only [writeVars] at this
+    simp only [writeVars, List.zip_cons_cons, List.foldl_cons, this, List.getElem?_set, if_neg hw]
+
+theorem writeVars_getElem?_mem (v : Nat) : ∀ (vars : List Nat) (vals st : List Bool), vars.Nodup →
+    vals.length = vars.length → v ∈ vars → v < st.length →
+    (writeVars st vars vals)[v]? = (vars.zip vals).lookup v
+  | [], _, _, _, _, h, _ => by simp at h
+  | w :: ws, [], _, _, hl, _, _ => by simp at hl
+  | w :: ws, x :: xs, st, hn, hl, hm, hv => by
+    simp only [writeVars, List.zip_cons_cons, List.foldl_cons, List.lookup_cons]
+    have hn' := List.nodup_cons.mp hn
+    by_cases he : v = w
+    · subst he
+      have := writeVars_getElem?_not_mem v ws xs (st.set v x) hn'.1
+      simp only [writeVars] at this
+      rw [this]
+      simp [hv]
+    · have hm' : v ∈ ws := by simpa [he] using hm
+      have := writeVars_getElem?_mem v ws xs (st.set w x) hn'.2 (by simpa using hl) hm' (by simpa using hv)
+      simp only [writeVars] at this
+      rw [this]
+      have : (v == w) = false := by simpa using he
+      simp [this]
+
+/-- the state entering a string agrees with the input leg of the first op on each variable -/
+theorem propagate_firstIn (v : Nat) : ∀ (s : Slots) (st st' : List Bool) (x : Bool),
+    propagate st s = some st' → firstIn v s = some x → st[v]? = some x
+  | [], _, _, _, _, h => by simp [firstIn] at h
+  | none :: t, st, st', x, hp, h => by
+    simp only [propagate] at hp; simp only [firstIn] at h
+    exact propagate_firstIn v t st st' x hp h
+  | some o :: t, st, st', x, hp, h => by
+    simp only [propagate] at hp
+    cases ha : applyOp st o with
+    | none => rw [ha] at hp; cases hp
+    | some st1 =>
+      rw [ha] at hp
+      simp only [applyOp] at ha
+      split at ha
+      · rename_i hi
+        simp only [Option.some.injEq] at ha
+        simp only [firstIn] at h
+        split at h
+        · have hmem := lookup_mem _ _ _ h
+          simp only [inputsMatch, List.all_eq_true, beq_iff_eq] at hi
+          exact hi (v, x) hmem
+        · rename_i hc
+          have hnm : v ∉ o.vars := by simpa using hc
+          have := propagate_firstIn v t st1 st' x hp h
+          rw [← ha, writeVars_getElem?_not_mem v _ _ _ hnm] at this
+          exact this
+      · cases ha
+
+/-- the output leg of an op agrees with the input leg of the next op on that variable -/
+theorem propagate_link (v : Nat) (o : Op) (t : Slots) (st st' : List Bool) (x : Bool)
+    (hn : o.vars.Nodup) (hi : o.ins.length = o.vars.length) (ho : o.outs.length = o.vars.length)
+    (hp : propagate st (some o :: t) = some st') (hv : v ∈ o.vars) (hx : firstIn v t = some x) :
+    o.legOut v = some x := by
+  simp only [propagate] at hp
+  cases ha : applyOp st o with
+  | none => rw [ha] at hp; cases hp
+  | some st1 =>
+    rw [ha] at hp
+    have h1 := propagate_firstIn v t st1 st' x hp hx
+    simp only [applyOp] at ha
+    split at ha
+    · rename_i him
+      simp only [Option.some.injEq] at ha
+      -- v is checked against the state, hence in range
+      have hlt : v < st.length := by
+        obtain ⟨k, hk, hkv⟩ := List.getElem_of_mem hv
+        have hk' : k < o.ins.length := by rw [hi]; exact hk
+        have hmem : (v, o.ins[k]) ∈ o.vars.zip o.ins := by
+          rw [← hkv]
+          exact List.mem_iff_getElem.mpr ⟨k, by rw [List.length_zip]; exact Nat.lt_min.mpr ⟨hk, hk'⟩, by simp⟩
+        simp only [inputsMatch, List.all_eq_true, beq_iff_eq] at him
+        have := him _ hmem
+        simp only at this
+        by_cases hc : v < st.length
+        · exact hc
+        · rw [List.getElem?_eq_none (Nat.le_of_not_lt hc)] at this; cases this
+      rw [← ha, writeVars_getElem?_mem v _ _ _ hn ho hv hlt] at h1
+      exact h1
+    · cases ha
+
 end Qmc
